@@ -10,7 +10,7 @@ def main():
     t = tier()
     chk = c03.root_check('C04', ['root/zz_verif_rand.go', 'C07/zz_verif_c07.go', 'C04/zz_verif_c04.go'])
     P = MOD + '.'
-    chk.load([P + 'VerifC04Converge', P + 'VerifC04Devices', P + 'VerifC04Witness'])
+    chk.load([P + 'VerifC04Converge', P + 'VerifC04Devices', P + 'VerifC04Alias', P + 'VerifC04Witness'])
     cfg = {'timeout_ms': 60000, 'unwind': 12}
     steps = (2, 3) if t == 'quick' else (2, 3, 4)
     jobs = []
@@ -24,6 +24,9 @@ def main():
     for (s_, inc, sec, K) in ([(2, 1, 0, 4), (3, 0, 0, 2)] if t == 'quick' else [(2, 1, 0, 4), (3, 0, 0, 2), (3, 1, 0, 8), (2, 1, 1, 8), (3, 0, 1, 8), (4, 0, 1, 14)]):
         for i in range(K):
             jobs.append(Job(P + 'VerifC04Devices', (s_, inc, sec), cfg=cfg, max_paths=300000, shard=(i, K), label='VerifC04Devices(%d,%d,%d)#%d/%d' % (s_, inc, sec, i, K)))
+    for (st, K) in ([(2, 1)] if t == 'quick' else [(2, 1), (3, 6), (4, 14)]):
+        for i in range(K):
+            jobs.append(Job(P + 'VerifC04Alias', (st,), cfg=cfg, max_paths=300000, shard=(i, K) if K > 1 else None, label='VerifC04Alias(%d)#%d/%d' % (st, i, K)))
     jobs.append(Job(P + 'VerifC04Witness', (), witness=True, cfg=cfg))
     res = chk.run_jobs(jobs)
     finish(chk, res, t,
@@ -32,7 +35,7 @@ def main():
                        'index receives the same entry set under a FREE arrival order (log contract: GetEntries() = arrival order, Values() = the '
                        'deterministic ipfs-log order). Checked: equal observations on both replicas, latest-event-per-subject wins against a '
                        'reference fold, idempotence of re-indexing.',
-           bounds={'history_length': list(steps), 'families': 'contact lifecycle / request switch+seed / group join-leave', 'devices': 'multi-member group: 3 devices (2 of one member) announcing + chain key sent to 2 members, 2..3 (5) operations in free order', 'arrival_orders': 'all permutations',
+           bounds={'history_length': list(steps), 'families': 'contact lifecycle / request switch+seed / group join-leave', 'alias': 'contact group: announce / send alias key on both sides, 2 (3, 4) operations in a free interleaving; one-pass, two-batch and re-indexed replicas', 'devices': 'multi-member group: 3 devices (2 of one member) announcing + chain key sent to 2 members, 2..3 (5) operations in free order', 'arrival_orders': 'all permutations',
                    'outside': 'go-ipfs-log / go-orbit-db replication, heads exchange and reopen themselves (they appear only through the two accessors of the log contract); causally unordered concurrent writes other than through partial views'},
            assumptions=['log contract: Values() is a function of the entry set extending causal order; GetEntries() is arrival order (confirmed on go-ipfs-log: Join inserts a batch in BFS-from-heads order)'],
            trusted=['go/ssa lowering', 'wesym interpreter + contracts', 'z3 5.1.0 (+cross-check)'])
